@@ -13,12 +13,18 @@ from symx import Obligation, Violation
 from symx.rebind import rebound
 
 
-def _fit(cls, params, X, y, feats_kw):
+def _fit(ctx, cls, params, X, y, feats_kw):
     obj = k_api.build(cls, params, False) if feats_kw is None else feats_kw()
     try:
         obj.fit(X, y)
     except AssertionError:
         return None, "AssertionError"
+    except Violation:
+        raise
+    except Exception as e:  # an internal error on one of two equivalent encodings is a dependence on the encoding (and a C08 violation)
+        import traceback
+
+        ctx.require(False, "C08.internal-error", f"{cls}.fit raised {type(e).__name__}: {str(e)[:140]} | {traceback.format_exc(limit=-2)[-300:]}")
     return obj, "ok"
 
 
@@ -30,7 +36,7 @@ def h_rows(ctx, cls, n, n_nan, ypat, params, relabel):
     perms = list(itertools.permutations(range(N))) if N <= 3 else [tuple(reversed(range(N)))] + [tuple((i + r) % N for i in range(N)) for r in range(1, N)] + [tuple([1, 0] + list(range(2, N)))]
     perm = list(perms[ctx.choose("perm", len(perms))])
     with rebound(ctx, ["R1", "R2"]):
-        a, sa = _fit(cls, params, X, y, None)
+        a, sa = _fit(ctx, cls, params, X, y, None)
         Xp = X.iloc[perm].copy()
         yp = y.iloc[perm].copy()
         if relabel == "offset":
@@ -43,7 +49,7 @@ def h_rows(ctx, cls, n, n_nan, ypat, params, relabel):
             idx = list(Xp.index)
         Xp.index = idx
         yp.index = idx
-        b, sb = _fit(cls, params, Xp, yp, None)
+        b, sb = _fit(ctx, cls, params, Xp, yp, None)
         ctx.require(sa == sb, "C11.row-permutation", f"fit {sa} on the original rows, {sb} after permutation {perm} / index relabelling {relabel}")
         if a is None:
             return dict(counters={"refused": 1}, sample=dict(cls=cls, perm=perm), result=dict(outcome=sa))
@@ -62,18 +68,36 @@ def h_rows(ctx, cls, n, n_nan, ypat, params, relabel):
     return dict(counters={"ok": 1}, sample=dict(cls=cls, perm=perm, relabel=relabel, kept=ka), result=dict(kept=ka, part=part))
 
 
-def h_monotone(ctx, cls, n, n_nan, ypat, params):
+GRIDS = {
+    # exactly representable images of an affine map with a large offset / a tiny unit: neighbouring values differ by far
+    # less than any "closeness" tolerance (relative 1e-9 resp. absolute 1e-12), yet are distinct doubles
+    "offset": [2.0**20 + k / 1024.0 for k in range(48)],
+    "tiny": [(k + 1) * 2.0**-40 for k in range(48)],
+}
+
+
+def h_monotone(ctx, cls, n, n_nan, ypat, params, encoding="free"):
     """O11.1 at API level: any strictly increasing re-encoding x -> x' (covers a*x+b, a>0)."""
     X, xs = k_api.make_X(ctx, n, n_nan, companions=False)
     N = n + n_nan
     y = pd.Series(list(ypat)[:N], index=X.index)
     X2, ys = k_api.make_X(ctx, n, n_nan, companions=False, prefix="w")
+    if encoding != "free":
+        import fractions
+
+        import z3
+
+        for w in ys:
+            if getattr(ctx, "concrete", False):
+                ctx.assume(any(w == g for g in GRIDS[encoding]))
+            else:
+                ctx.assume(z3.Or([w.e == z3.RealVal(fractions.Fraction(g)) for g in GRIDS[encoding]]))
     for i, j in itertools.combinations(range(n), 2):
         ctx.assume((xs[i] < xs[j]) == (ys[i] < ys[j]))
         ctx.assume((xs[i] == xs[j]) == (ys[i] == ys[j]))
     with rebound(ctx, ["R1", "R2"]):
-        a, sa = _fit(cls, params, X, y, None)
-        b, sb = _fit(cls, params, X2, y, None)
+        a, sa = _fit(ctx, cls, params, X, y, None)
+        b, sb = _fit(ctx, cls, params, X2, y, None)
         ctx.require(sa == sb, "C11.monotone-map", f"fit {sa} before and {sb} after a strictly increasing re-encoding")
         if a is None:
             return dict(counters={"refused": 1}, sample=dict(cls=cls), result=dict(outcome=sa))
@@ -137,8 +161,8 @@ def h_rename(ctx, cls, kind, sizes, params, perm="none", rename=True):
         return BinaryCarver(copy=True, **kw, **p)
 
     what = ("renaming %s" % mp if rename else "") + (" row permutation %s" % perm if perm != "none" else "")
-    a, sa = _fit(cls, params, X, y, lambda: mk(old))
-    b, sb = _fit(cls, params, X2, y2, lambda: mk(new))
+    a, sa = _fit(ctx, cls, params, X, y, lambda: mk(old))
+    b, sb = _fit(ctx, cls, params, X2, y2, lambda: mk(new))
     ctx.require(sa == sb, "C11.category-renaming" if rename else "C11.row-permutation", f"fit {sa} before and {sb} after {what}")
     if a is None:
         return dict(counters={"refused": 1}, sample=dict(kind=kind, sizes=sizes), result=dict(outcome=sa))
@@ -174,7 +198,8 @@ def obligations(tier):
                 for ypat in pats:
                     for relabel in (("offset", "str") if quick else ("offset", "shuffled", "str", "same")):
                         rows_jobs.append(dict(cls=cls, n=n, n_nan=n_nan, ypat=ypat, params=params, relabel=relabel))
-                    mono_jobs.append(dict(cls=cls, n=n, n_nan=n_nan, ypat=ypat, params=params))
+                    for enc in ("free", "offset", "tiny"):
+                        mono_jobs.append(dict(cls=cls, n=n, n_nan=n_nan, ypat=ypat, params=params, encoding=enc))
     for cls in ("BinaryCarver",) + (() if quick else ("ContinuousCarver",)):
         for kind in RENAMES:
             for sizes in ([(3, 3, 2)] if quick else [(3, 3, 2), (2, 2, 2, 2), (4, 1, 3)]):
@@ -186,7 +211,7 @@ def obligations(tier):
         k_quantiles.obligation(tier, {"C11"}, "O11.1a find_quantiles: every row falls in the same bucket after any strictly increasing re-encoding; boundaries do not depend on row order", ["iso", "perm"]),
         Obligation(name="O11.1b complete fit: same kept features and same induced row partition after any strictly increasing re-encoding of a quantitative feature",
                    harness=h_monotone, jobs=mono_jobs, encodes=k_api.ENC_COMMON + k_api.ENC_CARVER, rebindings=k_api.RB,
-                   bounds=f"n=3{'' if quick else '-4'} symbolic rows (+0/1 NaN) and an order-isomorphic second column (relational assumption), binary / continuous targets", twin_every=7, budget_s=6.0),
+                   bounds=f"n=3{'' if quick else '-4'} symbolic rows (+0/1 NaN) and an order-isomorphic second column (relational assumption): any reals, or exactly representable images under a large offset (2^20 + k/1024) / a tiny unit (k*2^-40); binary / continuous targets", twin_every=2, budget_s=6.0),
         Obligation(name="O11.3 complete fit: same kept features and row partition after a solver-chosen row permutation with index relabelling (offset, shuffled ints, strings)",
                    harness=h_rows, jobs=rows_jobs, encodes=k_api.ENC_COMMON + k_api.ENC_CARVER, rebindings=k_api.RB,
                    bounds=f"n=3{'' if quick else '-4'} symbolic rows (+0/1 NaN): all permutations (N<=3) or reversal/rotations/transposition", twin_every=7, budget_s=6.0),
